@@ -125,6 +125,10 @@ ReqViol(e) ==
   IF e.kind = "robots"
   THEN IF ~RobotsOn THEN 30                                         \* robots.txt fetched although checking is off
        ELSE IF e.h \in Hosts /\ robotsDone[e.h] THEN 31             \* C20: fetched again once obtained
+       \* C02: the control file of an origin none of whose URLs may be visited (a URL that robots.txt itself
+       \* forbids still counts: the file has to be read to learn that)
+       ELSE IF e.h \in Hosts /\ ~\E u \in URLs : S.origin[u] = e.h /\ (u \in mayreq \/ u \in mayreqNF \/ Disallowed(u))
+            THEN 22
        ELSE 0
   ELSE IF ~InU(e.u) THEN (IF e.kind = "other" THEN 20 ELSE 0)        \* C02: request for a URL that is not on the site map
   ELSE IF RobotsOn /\ ~robotsDone[S.origin[e.u]] THEN 32               \* C20: page requested before robots.txt obtained
